@@ -13,7 +13,8 @@ EVIDENCE = dict(
          "assigned through a MetaModule user-defined controller mapped onto it, under its own name and under its label alias. Further probes: after loads and MetaModules that mirror negative-minimum controllers "
          "(rejection at min-1/max+1, acceptance at min/max, fresh defaults again), a held out-of-range value assigned again, modules named with "
          "braces, lenient set_raw, attribute names as enum names. An event is non-trivial when the value "
-         "differs from the default or the assignment is refused.",
+         "differs from the default or the assignment is refused."
+         " Alias probes have an unlabelled user-defined controller in front and read back under the controller's own name; a child interpreter constructs every type FIRST with keyword values and reports the defaults of the next plain object (fresh events).",
     explanation="complete over 43 types x 502 controllers x {min-1,min,min+1,mid,max-1,max,max+1 | every enum member by "
                 "value and by name, invalid value, invalid name | booleans} x {strict, lenient} x {attribute, keyword}")
 
